@@ -339,6 +339,10 @@ impl Scenario for Soup {
         } else if rng.chance(1, 3) && !p.doc.is_empty() {
             p.stream.eof_at = Some(rng.below(p.doc.len()) as u32);
         }
+        // the early end is not final: the rest of the document shows up afterwards
+        if p.stream.kind != SourceKind::Slice && (p.enumerate || p.stream.eof_at.is_some()) && rng.bool() {
+            p.stream.revive = true;
+        }
         // call histories: read_to_end* / read_text on arbitrary input, with the name of
         // the last start tag or an arbitrary one
         if rng.chance(1, 4) {
@@ -429,7 +433,7 @@ pub fn run_ops_on(plan: &Plan, shared: &Rc<Vec<u8>>, st: &Stream, stop_on_io: bo
     let mut steps: Vec<Step> = vec![];
     let mut monitor: Vec<(String, String)> = vec![];
     let mut ticks = 0;
-    let eff_len = st.eof_at.map(|e| (e as usize).min(doc.len())).unwrap_or(doc.len());
+    let eff_len = if st.revive { doc.len() } else { st.eof_at.map(|e| (e as usize).min(doc.len())).unwrap_or(doc.len()) };
     let has_raw = plan.ops.iter().any(|o| matches!(o, Op::Raw { .. }));
     let res = guard(|| {
         let mut rd = Rd::new(doc, shared, st, plan.reader, plan.cfg, &log, plan.run);
@@ -530,6 +534,7 @@ pub fn run_ops_on(plan: &Plan, shared: &Rc<Vec<u8>>, st: &Stream, stop_on_io: bo
         fired_err: l.fired_err,
         err_fired: l.err_fired,
         hit_trunc_eof: l.hit_trunc_eof,
+        revived: l.revived,
         ticks,
     }
 }
